@@ -14,7 +14,7 @@ import (
 func init() {
 	register(stream{
 		name: "polipld",
-		rule: "policy.FromIPLD followed by Policy.ToIPLD on IPLD nodes: well-formed policies of depth ≤ 3 from the statement grammar (all eleven operators, selectors that print differently from their source such as \".a.?\" and \".a???\"), and malformed shapes obtained from them by replacing a subtree with a random value, changing an operator string, dropping or adding a tuple element, using out-of-range integers, invalid selectors and invalid patterns; the same nodes are also sent through DAG-JSON (FromDagJson). Compared: accept/reject and the written-back node. Added later: patterns with runs of stars next to escapes (**, \\**, a**b, *\\**), quoted field names with ?? inside, and the DAG-JSON leg for every node without floats (bytes and links included). Every literal kind (link, bytes, nested) at every literal position through both entry points; tuples too long or too short for their operator at the top and nested. Non-trivial = every case (each exercises the decoder). Distinct = distinct protocol lines.",
+		rule: "policy.FromIPLD followed by Policy.ToIPLD on IPLD nodes: well-formed policies of depth ≤ 3 from the statement grammar (all eleven operators, selectors that print differently from their source such as \".a.?\" and \".a???\"), and malformed shapes obtained from them by replacing a subtree with a random value, changing an operator string, dropping or adding a tuple element, using out-of-range integers, invalid selectors and invalid patterns; the same nodes are also sent through DAG-JSON (FromDagJson). Compared: accept/reject and the written-back node. Added later: patterns with runs of stars next to escapes (**, \\**, a**b, *\\**), quoted field names with ?? inside, and the DAG-JSON leg for every node without floats (bytes and links included). Every literal kind (link, bytes, nested) at every literal position through both entry points; tuples too long or too short for their operator at the top and nested. Statements nested 1 … 200 deep through each of not / and / or / all / any and a mix of them. Non-trivial = every case (each exercises the decoder). Distinct = distinct protocol lines.",
 		run:  runPolIpldStream,
 		eval: evalPolIpld,
 		cmp:  cmpImplSpec,
@@ -178,6 +178,33 @@ func runPolIpldStream(c *ctx) error {
 	}
 	for _, s := range []string{"l()", "n", "m()", "i1", "l(l())", "l(i1)", "l(l(" + str("==") + "))", "l(l(i1,i2,i3))"} {
 		emit(s, "ipld-special")
+	}
+	// statements nested 1 … 200 deep through not, and / or (one operand), all / any, and a mix of them: what the constructors can
+	// build and ToIPLD writes, FromIPLD reads (the model's decoder is structural: depth is no reason to refuse)
+	{
+		eq := "l(" + str("==") + "," + str(".a") + ",i1)"
+		wraps := map[string]func(string) string{
+			"not": func(x string) string { return "l(" + str("not") + "," + x + ")" },
+			"and": func(x string) string { return "l(" + str("and") + ",l(" + x + "))" },
+			"or":  func(x string) string { return "l(" + str("or") + ",l(" + x + "," + eq + "))" },
+			"all": func(x string) string { return "l(" + str("all") + "," + str(".l") + "," + x + ")" },
+			"any": func(x string) string { return "l(" + str("any") + "," + str(".") + "," + x + ")" },
+		}
+		order := []string{"not", "and", "or", "all", "any"}
+		for _, d := range []int{1, 2, 7, 8, 9, 15, 16, 17, 31, 32, 33, 34, 63, 64, 65, 100, 127, 128, 129, 200} {
+			for _, w := range order {
+				x := eq
+				for i := 0; i < d; i++ {
+					x = wraps[w](x)
+				}
+				emit("l("+x+")", "ipld-depth")
+			}
+			x := eq
+			for i := 0; i < d; i++ {
+				x = wraps[order[i%len(order)]](x)
+			}
+			emit("l("+x+")", "ipld-depth")
+		}
 	}
 	// every literal kind at every position a literal can take (links and bytes have a form of their own in DAG-JSON)
 	{
